@@ -90,4 +90,54 @@ theorem exOut_agg : aggregate Transc.id exOut exArgs = .ok exBack := by
   rw [show aggregateSlice Transc.id exArgs exOut = .ok exBack from exOut_period]
   rfl
 
+/-! twin slices: an EUR slice and a USD slice that differ ONLY in the currency collide after conversion -/
+def twinCell (cur : String) (v : Val) : Cell :=
+  { kind := .cumulative, ps := ⟨2020, 1, 1⟩, pe := ⟨2020, 12, 31⟩, ev := ⟨2020, 12, 31⟩,
+    values := [("paid_loss", v)], md := { currency := some cur } }
+def twinT : List Cell := [twinCell "EUR" (.int 100), twinCell "USD" (.int 125)]
+def twinOut : List Cell := [twinCell "USD" (.flt 125), twinCell "USD" (.int 125)]
+
+theorem twin_convert : convertCurrency twinT "USD" [("EUR", .flt (5/4))] = .ok twinOut := by
+  unfold convertCurrency
+  rw [show (Triangle.slices twinT).mapM (convertSlice "USD" [("EUR", .flt (5/4))]) =
+    .ok [[twinCell "USD" (.flt 125)], [twinCell "USD" (.int 125)]] by decide +kernel]
+  show Triangle.ofCells twinOut = .ok twinOut
+  exact ofCells_of_sorted (l := twinOut) (by decide +kernel) (by decide +kernel)
+
+theorem twin_spec : currencySpec moneyFields "USD" [("EUR", 5/4)] twinT twinOut = true := by decide +kernel
+
+/-! a cell whose evaluation date lies inside its first sub-period -/
+def exU : Cell := { exY with ev := ⟨2020, 3, 31⟩ }
+
+theorem exU_res : periodResolution [exU] = .ok 12 := by
+  unfold periodResolution
+  rw [show periods [exU] = [(⟨2020, 1, 1⟩, ⟨2020, 12, 31⟩)] by decide +kernel]
+  simp only
+  rw [List.mergeSort_of_pairwise (by decide +kernel)]
+  decide +kernel
+
+theorem exU_fields : triFields [exU] = ["open_claims", "paid_loss"] := by
+  unfold triFields sortStrings
+  rw [List.mergeSort_of_pairwise (by decide +kernel)]
+  decide +kernel
+
+theorem exU_disagg : disaggregateExperience [exU] 6 exW none = .ok [] := by
+  unfold disaggregateExperience
+  rw [exU_res, exU_fields]
+  simp only
+  rw [show weightsOrDefault exW ((12 : Int) / ((6 : Nat) : Int)).toNat = [1/4, 3/4] by decide +kernel]
+  rw [show (none : Option (List String)).getD Generated.Units.defaultInterpolationFields =
+    Generated.Units.defaultInterpolationFields from rfl]
+  have hcore : disaggCore [exU] 6 [1/4, 3/4] Generated.Units.defaultInterpolationFields = .ok [] := by
+    unfold disaggCore
+    rw [show Triangle.slices [exU] = [({}, [exU])] by decide +kernel]
+    have hs : disaggSlice [exU] 6 [1/4, 3/4] Generated.Units.defaultInterpolationFields = .ok [] := by
+      unfold disaggSlice
+      rw [exU_res]
+      decide +kernel
+    simp only [List.mapM_cons, List.mapM_nil, hs, bind, Except.bind, pure, Except.pure]
+    decide +kernel
+  rw [hcore]
+  decide +kernel
+
 end Bermuda.Units.Example
